@@ -29,6 +29,11 @@ def unitsAux : List Sym → List Char → List (List Char) × List Char
   | .fl :: r, cur =>
     if cur.isEmpty then unitsAux r [] else (cur :: (unitsAux r []).1, (unitsAux r []).2)
 
+theorem flat_append (a b : List Op) : flat (a ++ b) = flat a ++ flat b := by
+  induction a with
+  | nil => rfl
+  | cons op r ih => cases op <;> simp [flat, ih]
+
 def units (h : List Op) : List (List Char) := (unitsAux (flat h) []).1
 def pending (h : List Op) : List Char := (unitsAux (flat h) []).2
 
